@@ -67,7 +67,13 @@ func genC31(seed uint64, tier string) any {
 	}
 	conns := 1
 	for conns < n {
-		switch r.Pick([]int{0, 2, 2, 3, 6, 2, 1, 1, 2, 1}) {
+		pskw := 0
+		if sc.Version == vTLS13 {
+			pskw = 3
+		}
+		switch r.Pick([]int{0, 2, 2, 3, 6, 2, 1, 1, 2, 1, pskw}) {
+		case 10:
+			sc.Events = append(sc.Events, c31Event{Kind: "psk_probe", Off: r.Intn(1 << 16), Bit: r.Intn(8)})
 		case 9:
 			if sc.KeyMode != "auto" {
 				sc.Events = append(sc.Events, c31Event{Kind: "clone"})
@@ -337,6 +343,82 @@ func execC31(t *testing.T, scAny any, keepLog bool) *Outcome {
 				cache.cur[serverName] = tls.VerifSessionWithTicket(cur, ft)
 				tampered = true
 				o.count("fault.ticket_foreign", 1)
+			case "psk_probe":
+				// A client offering two PSK identities: an unusable one first, then the cached authentic ticket
+				// (see c31_pskprobe.go). Only the server's choice in its ServerHello is judged.
+				cur, ok := cache.cur[serverName]
+				if !ok || tampered {
+					continue
+				}
+				v, suite := tls.VerifSessionParams(cur)
+				tk := tls.VerifSessionTicket(cur)
+				it := find(tk)
+				if v != vTLS13 || it == nil || len(tk) == 0 {
+					continue
+				}
+				var extra []byte
+				kindName := "random"
+				switch ev.Off % 4 {
+				case 1:
+					extra = append([]byte(nil), tk...)
+					extra[len(extra)-1-ev.Off%len(extra)] ^= 1 << uint(ev.Bit)
+					kindName = "altered"
+				case 2:
+					for i := range issued {
+						if issued[i].ByA && sc.KeyMode == "explicit" && !validEpochs[issued[i].KeyEpoch] && !bytes.Equal(issued[i].Bytes, tk) {
+							extra, kindName = issued[i].Bytes, "rotated_out"
+						}
+					}
+				case 3:
+					for i := range issued {
+						if !issued[i].ByA {
+							extra, kindName = issued[i].Bytes, "foreign"
+						}
+					}
+				}
+				if extra == nil {
+					extra = kit.NewRng(uint64(ev.Off)).Bytes(60 + ev.Off%120)
+				}
+				if fe := find(extra); fe != nil && fe.ByA && (sc.KeyMode != "explicit" || validEpochs[fe.KeyEpoch]) {
+					continue // by chance an identity the server may accept: nothing to assert
+				}
+				secret, nonce := tls.VerifSessionSecret(cur)
+				rw := &pskRewriter{Suite: suite, Secret: secret, Nonce: nonce, Extra: extra}
+				savedCur, savedPuts := cache.cur[serverName], len(cache.puts)
+				co := startConn(run, fmt.Sprintf("p%d", ei), ccfg, acceptCfg(), sc.Net, rw)
+				s.Run()
+				cache.cur[serverName] = savedCur
+				cache.puts = cache.puts[:savedPuts]
+				if !rw.Fired {
+					o.count("probe.psk_probe_not_applicable", 1)
+					continue
+				}
+				o.count("fault.second_psk_identity_"+kindName, 1)
+				sh, err := firstServerHelloOrRetry(co.SNet.SentStream())
+				if err != nil || sh == nil {
+					o.count("probe.psk_probe_no_serverhello", 1)
+					continue
+				}
+				if bytes.Equal(sh.Random, helloRetryRandom) {
+					o.count("probe.psk_probe_hello_retry", 1)
+					continue
+				}
+				sel := -1
+				if d, ok := sh.ext(41); ok && len(d) == 2 {
+					sel = int(d[0])<<8 | int(d[1])
+				}
+				mustResume := it.ByA && it.KeyEpoch == epoch && clock().Sub(it.At) < time.Hour && it.Vers == vTLS13 &&
+					ccfg.MaxVersion == sc.Version && srvA.MaxVersion == sc.Version
+				switch {
+				case sel == 0:
+					o.Fail = Failf("c31.safety", "server selected a PSK identity it cannot have authenticated ("+kindName+" identity listed first)", "event %d: selected_identity 0 of 2", ei)
+				case sel > 1:
+					o.Fail = Failf("c31.safety", "server selected a PSK identity that was not offered", "event %d: selected_identity %d of 2", ei, sel)
+				case sel == -1 && mustResume:
+					o.Fail = Failf("c31.progress_multi", "an authentic fresh ticket under the current key, listed after an unusable PSK identity, was not selected", "event %d: first identity %s (%d bytes), ServerHello without pre_shared_key; key mode %s", ei, kindName, len(extra), sc.KeyMode)
+				case sel == 1:
+					o.count("probe.second_psk_identity_selected", 1)
+				}
 			case "mutate":
 				cur, ok := cache.cur[serverName]
 				if !ok {
